@@ -520,6 +520,32 @@ func (env *Env) callExpr(x *ECall) (TV, error) {
 		return nil
 	}
 	switch x.Fn {
+	case "held":
+		// held(Type.mu): at this site a mutex `mu` of some object of struct type Type is certainly held (must-hold lockset
+		// dataflow, the same analysis as the guarded_by obligations). Meaningful in call-site clauses only.
+		if len(x.Args) != 1 {
+			return TV{}, errf("held takes one argument of the form Type.mu")
+		}
+		sel, ok := x.Args[0].(*ESel)
+		if !ok {
+			return TV{}, errf("held takes one argument of the form Type.mu")
+		}
+		id, ok := sel.X.(*EIdent)
+		if !ok {
+			return TV{}, errf("held takes one argument of the form Type.mu")
+		}
+		vc := env.vc
+		if vc.curBlock == nil {
+			return TV{}, errf("held(...) outside a call-site clause")
+		}
+		var cf *ContractFile
+		if vc.fn.Pkg != nil {
+			cf = vc.w.contracts[vc.fn.Pkg.Pkg.Path()]
+		}
+		if heldAt(cf, vc.fn, vc.curBlock, vc.curIdx, "<"+id.Name+"."+sel.Name+">") {
+			return TV{t: "true", ty: tBool}, nil
+		}
+		return TV{t: "false", ty: tBool}, nil
 	case "len", "cap":
 		if err := evalArgs(); err != nil {
 			return TV{}, err
